@@ -490,3 +490,13 @@ def counted_loop_exits(f, gs):
         if f.must_pass(via_edges=[(g.bid, g.ok) for g in gs] + [(g.bid, g.fail) for g in gs], starts=[(t, 0)], targets=[(bid, 0)]):
             out.append((bid, fl))
     return out
+
+
+def truthy_edges(f, pred, truth=True):
+    """edges on which the (cast-stripped) operand satisfying `pred` is non-zero (truth=True) or zero (truth=False), however
+    the test is spelled: `x`, `!x`, `x != 0`, `x == 0`, `0 != x`, `x == NULL`."""
+    from ..ir import const_val as _cv
+    out = list(cond_edges(f, lambda c: c.get("k") != "bin" and pred(c), "true" if truth else "false"))
+    zero = lambda b: _cv(strip_casts(b)) == 0
+    out += rel_edges(f, lambda a: pred(strip_casts(a)) if a is not None else False, "!=", zero, truth=truth)
+    return out
